@@ -1,5 +1,5 @@
 From Coq Require Import Extraction ExtrOcamlBasic QArith Qabs Qreduction ZArith NArith.
-From SF Require Import Base.GeomAST Base.QKernel Base.Planar Model.SetOpSpec Model.OverlayComplex.
+From SF Require Import Base.GeomAST Base.QKernel Base.Planar Model.SetOpSpec Model.OverlayComplex Model.OverlayRings.
 Extraction Language OCaml.
 Extraction "model.ml"
   geom_of_bits xy_finite is_empty
@@ -12,6 +12,7 @@ Extraction "model.ml"
   clearance_ok snap_geom snap_pt dist2 seg_closest geom_mapxy pt_red operand_vertices operand_segs magnitude moved_count bbox
   g_polys g_lines g_points g_pointTs geom_vs
   dcel_ok ranges_ok twin_ok next_prev_ok faces_ok euler_ok labels_ok
+  extract_polygons polygon_groups group_rings f64_or0
   faces_selected boundary_edges lines_selected points_selected
   Qplus Qminus Qmult Qdiv Qopp Qabs.Qabs Qred Qle_bool Qeq_bool inject_Z Qcompare
   Z.add Z.mul Z.sub Z.of_N Z.opp Z.pow_pos.
